@@ -131,7 +131,7 @@ func RunCheck(o CheckOpts) int {
 		}
 	}
 	genS := time.Since(t0).Seconds()
-	tsec := 10
+	tsec := 20
 	if o.Tier == "thorough" {
 		tsec = 60
 	}
